@@ -53,7 +53,7 @@ def flags_mode(ctx):
         ctx.prove(exc is None and m == want, "mode-table", detail=f"got {m!r} / {exc!r}, want {want!r}")
 
 
-KINDS = ["reg", "deleted", "deleted_stale", "nul_deleted", "relative", "relative_existing", "socket", "pipe", "anon", "chardev", "toolong", "notlink", "closed_at_readlink", "closed_at_readlink_esrch", "closed_at_fdinfo", "closed_at_fdinfo_esrch", "directory"]
+KINDS = ["reg", "deleted", "deleted_stale", "nul_deleted", "relative", "relative_existing", "socket", "pipe", "anon", "chardev", "toolong", "notlink", "closed_at_readlink", "closed_at_readlink_esrch", "closed_at_fdinfo", "closed_at_fdinfo_esrch", "closed_at_fdinfo_read", "closed_at_fdinfo_read_esrch", "directory"]
 
 
 @harness("C14.open_files", quick=[dict(n=n, acc3=False) for n in (0, 1, 2)] + [dict(n=1, acc3=True)], thorough=[dict(n=n, acc3=False) for n in (0, 1, 2, 3)] + [dict(n=n, acc3=False, nsym=2) for n in (4, 5)] + [dict(n=2, acc3=True)])
@@ -80,7 +80,7 @@ def open_files(ctx, n, acc3, nsym=None):
         # (a descriptor on which the process holds a flock()/POSIX lock has further `lock:` lines of nine tokens each)
         locked = i == 0 and ctx.flag("fd0_holds_a_lock")
         k.files[info] = b"pos:\t" + k.num(pos) + b"\nflags:\t" + k.num(flags, base=8, lead=b"0") + b"\nmnt_id:\t27\nino:\t5\n" + (b"lock:\t1: FLOCK  ADVISORY  WRITE 77 08:01:5 0 EOF\n" if locked else b"")
-        if kind in ("reg", "deleted", "deleted_stale", "closed_at_fdinfo", "closed_at_fdinfo_esrch"):
+        if kind in ("reg", "deleted", "deleted_stale", "closed_at_fdinfo", "closed_at_fdinfo_esrch", "closed_at_fdinfo_read", "closed_at_fdinfo_read_esrch"):
             # 'deleted': a file whose name really ends in ' (deleted)' and exists; 'deleted_stale': the kernel's suffix on an unlinked file
             path = f"/data/file{i}" + (" (deleted)" if kind in ("deleted", "deleted_stale") else "")
             k.links[link] = path
@@ -88,7 +88,11 @@ def open_files(ctx, n, acc3, nsym=None):
                 k.stats[path] = simk.oserr(errno.ENOENT, path)
                 path = path[:-10]
             k.stats[path] = simk.StatResult()
-            if kind.startswith("closed_at_fdinfo"):
+            if kind.startswith("closed_at_fdinfo_read"):
+                # ... or after its fdinfo file was OPENED: the open succeeds and it is the read that fails (fs/proc/fd.c looks the
+                # descriptor up again when the file is read)
+                k.files[info] = simk.fails_on_read(k, info, errno.ESRCH if kind.endswith("esrch") else errno.ENOENT)
+            elif kind.startswith("closed_at_fdinfo"):
                 # the descriptor is closed after its link was read: the kernel answers ENOENT, or ESRCH when the task is being torn down
                 k.files[info] = simk.oserr(errno.ESRCH if kind.endswith("esrch") else errno.ENOENT, info)
             else:
